@@ -219,10 +219,37 @@ NSHARD = 16
 
 def plan(tier):
     n = 300 if tier == 'quick' else 5000
-    return [{'kind': 'hyp', 'shard': i, 'examples': n} for i in range(NSHARD)]
+    return [{'kind': 'hyp', 'shard': i, 'examples': n} for i in range(NSHARD)] + [{'kind': 'many', 'shard': 100, 'sizes': [60, 99, 100, 101, 150, 300]}]
+
+
+def many_spec(n, seed):
+    """n suspicious cells spread over two sheets, a few innocent ones in between"""
+    import random
+    rnd = random.Random(seed)
+    sheets = [{'title': 'Data', 'cells': []}, {'title': 'My Sheet', 'cells': []}]
+    used = set()
+    for i in range(n):
+        while True:
+            si, c, r = rnd.randrange(2), rnd.randrange(1, 15), rnd.randrange(1, 40)
+            if (si, c, r) not in used:
+                used.add((si, c, r))
+                break
+        sheets[si]['cells'].append([c, r, rnd.choice(SUSPICIOUS), 'suspicious'])
+    for i in range(10):
+        si, c, r = rnd.randrange(2), rnd.randrange(16, 20), rnd.randrange(1, 40)
+        if (si, c, r) not in used:
+            used.add((si, c, r))
+            sheets[si]['cells'].append([c, r, rnd.choice(INNOCENT_TEXT), 'innocent'])
+    return {'sheets': sheets}
 
 
 def run_shard(spec, rec):
+    if spec['kind'] == 'many':
+        for n in spec['sizes']:
+            for f in run_spec(many_spec(n, env.derive_seed('c19-many', n)), rec):
+                rec.fail(**f)
+        return
+
     def body(s):
         for f in run_spec(s, rec):
             rec.fail(**f)
